@@ -252,7 +252,8 @@ CLAIMS = {
  "C07": dict(
     text="Program descriptions (the eight C01 templates with seeded opcodes, x2/x4, constants, int and 64-bit "
          "parameters, accumulators, 1-D/2-D, plus float / double / long parameter marshalling programs, twelve "
-         "constant-n programs around the vector widths and a 2-D accumulator) are rendered to .orc text; tools/orcc built from the current tree generates "
+         "constant-n programs around the vector widths, programs with four destinations and eight sources (every "
+         "callee-saved pointer register in use) and a 2-D accumulator) are rendered to .orc text; tools/orcc built from the current tree generates "
          "implementation and header in five modes (lazy init, --init-function, --inline, --compat, --no-backup); gcc "
          "compiles them against the library and, with -DDISABLE_ORC, without it; a generated driver calls every "
          "function through its C prototype (array pointers, strides, parameters of each C type, n, m, accumulator "
